@@ -66,6 +66,9 @@ def cache_key(call):
     return ('va', call[1], call[2], call[3], call[4])
 
 
+_HEX = re.compile(r'0x[0-9a-fA-F]+')
+
+
 def execute(athlib_utils, jsonschema, call):
     try:
         if call[0] == 'sv':
@@ -80,7 +83,16 @@ def execute(athlib_utils, jsonschema, call):
             v = athlib_utils.valid_against_schema(spell(call[1], call[2]), spell(call[3], call[4]), **kw)
         return ('ok', repr(v))
     except Exception as e:
+        # the neutral working directory has a random name and object addresses differ between interpreters:
+        # neither may leak into an outcome (a tree whose error texts quote the path it tried made the
+        # determinism self-test diverge, control nc7b-r3)
         msg = str(e)
+        try:
+            cwd = os.getcwd()
+            msg = msg.replace(os.path.realpath(cwd), '<cwd>').replace(cwd, '<cwd>')
+        except Exception:
+            pass
+        msg = _HEX.sub('0x?', msg)
         return ('exc', type(e).__name__, hashlib.sha1(msg.encode('utf8', 'replace')).hexdigest()[:12])
 
 
@@ -317,6 +329,24 @@ def _gen_history(rng, docs):
     x = rng.random()
     if x >= 0.6 and x < 0.72:
         return 'sweep', sweep(rng, docs)
+    if x >= 0.72 and x < 0.77:
+        # the two helpers on the SAME schema file (any of the 13, any validator, any spelling): whatever one
+        # of them remembers about the file must not leak into the other's answer
+        s_ = rng.choice(SCHEMAS[7:] if rng.random() < 0.5 else SCHEMAS)
+        own = [d for d in docs if own_schema(d) == s_]
+        calls = []
+        for _ in range(rng.choice([2, 2, 3, 4])):
+            sp = rng.choice(['rel', 'rel', 'rel', 'abs', 'bare'])
+            if rng.random() < 0.5:
+                calls.append(('sv', s_, sp, rng.choice(VALIDATORS), rng.random() < 0.3))
+            else:
+                d = rng.choice(own) if own and rng.random() < 0.5 else rng.choice(docs)
+                calls.append(('va', d, 'rel', s_, sp if sp != 'abs' else 'rel', rng.random() < 0.3))
+        if not any(c[0] == 'sv' for c in calls):
+            calls.insert(0, ('sv', s_, 'rel', rng.choice(VALIDATORS), False))
+        if not any(c[0] == 'va' for c in calls):
+            calls.append(('va', rng.choice(own or docs), 'rel', s_, 'rel', False))
+        return 'short-both-helpers-one-schema', calls
     if x < 0.6:
         n = rng.choice([1, 2, 2, 3, 3, 3])
         calls = [rand_call(rng, docs)]
